@@ -215,6 +215,13 @@ def run_output_sxr(key):
                         f'{sorted(d) if isinstance(d, dict) else ""}, expected a dict with keys prefixed {pre!r}')
         if not same_value(d[pre + 'sdr'], res.sdr):
             return viol('dict values differ from the tuple values')
+        with np.errstate(all='ignore'):
+            da = sx.output_sxr(img, noise, average_sources=True, return_dict=rd)
+        for nm_ in ('sdr', 'sir', 'snr'):
+            if not isinstance(da, dict) or np.shape(da[pre + nm_]) != np.shape(getattr(avg, nm_)) or \
+                    not same_value(da[pre + nm_], getattr(avg, nm_)):
+                return viol(f'output_sxr(average_sources=True, return_dict={rd!r}): {pre + nm_} differs from the tuple '
+                            f'value (shape {np.shape(da[pre + nm_]) if isinstance(da, dict) else None})')
     return ok(outcome=tol.digest(np.nan_to_num(sdr, posinf=1e300, neginf=-1e300)), evals=3 + len(perms) + 2 * len(SCALES),
               flags=['non_identity_selection'] if list(sel) != list(range(Ks)) else ['identity_selection'])
 
@@ -347,8 +354,10 @@ def subchecks(tier, seed):
 
     def gen_cases():
         for seed in seeds_:
-            for lead in ((), (2,), (2, 3)):
+            for lead in ((), (2,), (2, 3), (3, 1), (1, 3), (2, 1, 2)):
                 for T in (8, 64, 4096):
+                    if 1 in lead and T == 4096:
+                        continue
                     for mix in (0.0, 0.1, 0.5, 0.9, 1.0):
                         yield (lead, T, mix, 'C', seed)
                         if lead and T == 64:
